@@ -170,6 +170,13 @@ class StagingHarness:
         with open(os.path.join(self.outside, "victim.txt"), "w") as f:
             f.write("VICTIM CONTENT")
         os.utime(os.path.join(self.outside, "victim.txt"), (1600000000, 1600000000))
+        # one victim next to every ancestor of the working directories (targets of '../' * k + 'victim.txt')
+        anc = os.path.dirname(self.jobs["ext"].workingDirectory.path)
+        for k in range(6):
+            with open(os.path.join(anc, "victim.txt"), "w") as f:
+                f.write("VICTIM %d LEVELS ABOVE THE WORKING DIRECTORY" % (k + 1))
+            os.utime(os.path.join(anc, "victim.txt"), (1600000000, 1600000000))
+            anc = os.path.dirname(anc)
         self.world = World(self.top)
 
     def close(self):
@@ -187,6 +194,8 @@ class StagingHarness:
             if idx % 2 == 0:
                 c.update({"cls": "same_basename_link_then_copy", "component": "same", "offending": True})
             return c
+        if idx % 9 in (2, 5):     # link members at depth, every (kind, depth, parent segments, followed) combination
+            return G.gen_link_depth_case(idx, (idx // 9) * 2 + (0 if idx % 9 == 2 else 1))
         wd = self.jobs["ext"].workingDirectory.path
         return G.gen_archive_case(idx, self.levels_up_available(), self.outside, os.path.relpath(self.outside, wd), wd)
 
